@@ -162,6 +162,25 @@ def main(ctx):
                     fails.append(({"kind": "det-law", "gate": gate}, desc, gate, dict(args, _earlier_requests=list(earlier)), seeds,
                                   bad + " (gate-time sweep on one gate-set object)"))
                 earlier.append(dict(args))
+    # sweeps on one gate-set object: the same request with only one T1 changed by a fraction of a microsecond (a calibration drift)
+    for desc in descs:
+        for gate in ("CR", "CNOT", "ECR", "CNOT_inv", "ECR_inv", "X", "single_qubit_gate"):
+            base = make_args(gate, rng)
+            tk = rng.choice([k for k in base if k.startswith("T1")])
+            if base[tk] == 0:
+                base[tk] = 50e-6
+            earlier = []
+            for f in (1.0, 1.0 + 2e-3, 1.0 - 1e-3, 1.0 + 3e-4):
+                args = dict(base)
+                args[tk] = base[tk] * f
+                seeds = [rng.randrange(2 ** 31) for _ in range(2)]
+                bad, d = oracle(desc, gate, args, seeds)
+                ctx.count()
+                hist[f"{gate}/T1-sweep"] = hist.get(f"{gate}/T1-sweep", 0) + 1
+                if bad:
+                    fails.append(({"kind": "det-law", "gate": gate}, desc, gate, dict(args, _earlier_requests=list(earlier)), seeds,
+                                  bad + f" ({tk} sweep by fractions of a microsecond on one gate-set object)"))
+                earlier.append(dict(args))
     # a second request served by the same gate set while the first is inside its numerical integration (forced thread interleaving,
     # qgv/interleave.py): the determinant of the first sample follows the law of ITS OWN arguments
     from qgv import interleave as IL
